@@ -85,6 +85,13 @@ func tierFor(prop, tier string) tierCfg {
 		if tier == "thorough" {
 			t.raceRuns = 120000
 		}
+	case "C17":
+		// handler registration racing with SetClient/Connect needs real parallelism
+		t.race = true
+		t.raceRuns = 1500
+		if tier == "thorough" {
+			t.raceRuns = 40000
+		}
 	case "C15":
 		t.race = true
 		t.raceRuns = 3000
@@ -542,6 +549,18 @@ func check(prop, tier string) int {
 		nViol++
 	}
 	for _, h := range hangs {
+		if prop != "C11" {
+			if why := libraryDeadlock(prop, h); why != "" {
+				// a goroutine of the library sits on a sync mutex for ever: a deadlock in
+				// the client, which breaks any property whose workload was running
+				v := sim.Violation{Prop: prop, Rule: "blocks-forever", Detail: fmt.Sprintf("run %d never reached quiescence: %s", h, why)}
+				sc := sim.Generate(prop, seed, h)
+				path := writeCrashReplay(prop, v, sc, crashRec{run: h, seed: seed, stderr: "hang: " + why})
+				fmt.Printf("VIOLATION property=%s replay=%s\n  %s\n", prop, path, v.Detail)
+				nViol++
+				continue
+			}
+		}
 		if prop == "C11" {
 			v := sim.Violation{Prop: prop, Rule: "blocks-forever", Detail: fmt.Sprintf("run %d never reached quiescence (non-durable block or spin)", h)}
 			sc := sim.Generate(prop, seed, h)
@@ -964,4 +983,37 @@ func minimiseCrash(work, prop string, sc *sim.Scenario) *sim.Scenario {
 		return sc
 	}
 	return sim.Minimise(sc, crashes)
+}
+
+// libraryDeadlock inspects the goroutine dump the watchdog kept for a hung
+// run: a goroutine blocked in sync.(*Mutex/RWMutex) with a library frame right
+// above the sync frames means the client deadlocked.
+func libraryDeadlock(prop string, run uint64) string {
+	b, err := os.ReadFile(filepath.Join(root, "replays", fmt.Sprintf("hang-%s-%d.stack.txt", prop, run)))
+	if err != nil {
+		return ""
+	}
+	for _, blk := range strings.Split(string(b), "\n\n") {
+		lines := strings.Split(blk, "\n")
+		if len(lines) < 3 || !(strings.Contains(lines[0], "[sync.Mutex.Lock") || strings.Contains(lines[0], "[sync.RWMutex.") || strings.Contains(lines[0], "[semacquire")) {
+			continue
+		}
+		for _, ln := range lines[1:] {
+			if strings.HasPrefix(ln, "\t") {
+				continue
+			}
+			if strings.HasPrefix(ln, "sync.") || strings.HasPrefix(ln, "internal/") || strings.HasPrefix(ln, "runtime.") {
+				continue
+			}
+			if strings.HasPrefix(ln, "github.com/at-wat/mqtt-go.") {
+				fn := ln
+				if j := strings.LastIndexByte(fn, '('); j > 0 {
+					fn = fn[:j]
+				}
+				return "goroutine blocked on a mutex in " + strings.TrimPrefix(fn, "github.com/at-wat/mqtt-go.")
+			}
+			break
+		}
+	}
+	return ""
 }
